@@ -63,6 +63,15 @@ ALSO = {
     # C23.c (subscripted terminal in the invalid-regex handler) is the node-kind clause C01.f as well
 }
 
+# general clause families (sa/rules/gen.py): registered for every property they can attribute a finding to
+def _register_general():
+    from sa.rules import gen
+    fn_of = {"T": "r_truth", "M": "r_memo", "O": "r_options", "S": "r_shallow"}
+    for fam, ps in gen.families().items():
+        for p in sorted(ps):
+            if ("sa.rules.gen", fn_of[fam]) not in RULES[p]: RULES[p].append(("sa.rules.gen", fn_of[fam]))
+_register_general()
+
 def rule_functions(prop):
     out = []
     for mod, name in RULES[prop]:
